@@ -460,25 +460,32 @@ impl CaseSpace for OverflowPerType {
         true
     }
     fn total(&self) -> usize {
-        8 * 8 * 2
+        8 * 8 * 3
     }
     fn run(&self, index: usize, transcript: bool) -> RunResult {
         let mut res = RunResult::default();
         let t_full = index % 8; // the type that sits at (or just below) capacity
         let u_over = (index / 8) % 8; // the type that overflowed
         let at_capacity = index / 64 == 0;
+        // third mode: the other type is configured to keep no events at all (capacity 0): it can
+        // never be "at capacity", whatever is done to its points
+        let zero_capacity = index / 64 == 2;
         res.obs = index as u64 + 131313;
         if t_full == u_over {
             return res;
         }
         let limit = 2u64;
-        let cfg = OCfg { event_buf: [limit as u16; 8], confirm_timeout_ms: TO, class_zero_octet_strings: true, ..Default::default() };
+        let mut event_buf = [limit as u16; 8];
+        if zero_capacity {
+            event_buf[t_full] = 0;
+        }
+        let cfg = OCfg { event_buf, confirm_timeout_ms: TO, class_zero_octet_strings: true, ..Default::default() };
         let mut sim = OSim::new(&cfg, 1);
         sim.db(|db| {
             add_point(db, u_over, 0, EventClass::Class1);
             add_point(db, t_full, 0, EventClass::Class2);
         });
-        let key = format!("{}-at-capacity:{}-overflowed", TYPES[t_full], TYPES[u_over]);
+        let key = format!("{}-{}:{}-overflowed", TYPES[t_full], if zero_capacity { "keeps-no-events" } else { "at-capacity" }, TYPES[u_over]);
         let mut n = 0u64;
         for _ in 0..limit + 1 {
             sim.db(|db| update(db, u_over, 0, n, false));
